@@ -314,3 +314,14 @@ impl<V> IntMap<u32, V> {
     { unimplemented!() }
 }
 // @end
+
+// @section vec_extra
+/// assumed contract of std's Vec::resize_with (vstd has none): new length; the common prefix is kept; every
+/// added element is a result of the closure
+pub assume_specification<T, A: std::alloc::Allocator, F: core::ops::FnMut() -> T>[ Vec::<T, A>::resize_with ](v: &mut Vec<T, A>, new_len: usize, f: F)
+    ensures
+        final(v)@.len() == new_len,
+        forall|i: int| 0 <= i < new_len && i < old(v)@.len() ==> final(v)@[i] == old(v)@[i],
+        forall|i: int| old(v)@.len() <= i < new_len ==> f.ensures((), #[trigger] final(v)@[i]),
+;
+// @end
